@@ -655,7 +655,20 @@ def lifecycle(ctx, rng, cell, family, lc):
             th.daemon = True
             th.start()
             proxy = jsonrpclib.ServerProxy(sut.srv.url)
-            out = proxy.echo("h%d" % i)
+            # (a request that is accepted but never answered ends in the socket timeout set in run())
+            try:
+                out = proxy.echo("h%d" % i)
+            except BaseException as ex:  # noqa
+                ctx.violate("request-through-handle_request-not-answered:%s:raised-%s" % (cell[0], type(ex).__name__), case,
+                            {"raised": ex, "stacks": poolmon.thread_stacks(sut.poolname)})
+                try:
+                    proxy("close")()
+                except Exception:  # noqa
+                    pass
+                # the close sequence may hang behind the stranded request: it is judged (with its frozen-state
+                # witness) like any other lifecycle
+                lifecycle_close(ctx, sut, case, ops, label + " [after an unanswered request]")
+                return
             proxy("close")()
             th.join(10)
             if out["bound"]["token"] != "h%d" % i:
@@ -784,6 +797,7 @@ def run(ctx):
     import jsonrpclib.SimpleJSONRPCServer as S
     import jsonrpclib.jsonrpc as J
     import jsonrpclib.threadpool as T
+    socket.setdefaulttimeout(30)   # a stranded exchange must surface as an exception, not as a dead shard
     rng = ctx.rng
     inj = inject.Injector([S, J, T])
     inj.install()
